@@ -354,6 +354,16 @@ def wl_stft(ctx, idx, rng):
     err = float(np.sqrt(np.sum(np.abs(yb.astype(np.complex128) - xin.astype(np.complex128)) ** 2)))
     if err > 64 * eps * math.log2(P + 2) * nrm:
         ctx.violation(o, f"istft(stft(z)) differs from z[:{keep}]: relative l2 error {err / nrm:.3e}", None, dict(feats, what="roundtrip"))
+    # the kept STFT inverted a second time (and a slice of it): every inversion gives the same samples
+    back2, exc2 = ctx.call(o, pb.contrib.istft, st, nperseg=P, where="istft of the same STFT again", features=feats)
+    if exc2 is None:
+        ctx.count("oracle[istft_repeat]")
+        with probes.quiet():
+            yb2 = gen.np_data(back2)
+        err2 = float(np.sqrt(np.sum(np.abs(yb2.astype(np.complex128) - xin.astype(np.complex128)) ** 2))) if yb2.shape == xin.shape else float("inf")
+        if err2 > 64 * eps * math.log2(P + 2) * nrm:
+            ctx.violation(o, f"a second istft of the same STFT object differs from z[:{keep}]: relative l2 error {err2 / nrm:.3e} "
+                             f"(the first inversion was right)", None, dict(feats, what="roundtrip_repeat"))
     ctx.bucket("stft", nchan, align, P, clsname, "dask" if use_dask else "np")
     if idx % 50 == 0:
         ctx.call(o, pb.contrib.stft, pb.Signal(np.zeros(8), sample_rate=1 * u.Hz), nperseg=2, expect=ValueError, where="stft(non-baseband)")
